@@ -166,19 +166,24 @@ def outputs(beam):
     return names, [v.to(D) for v in vals]
 
 
-def evaluate(case, th, grad=False):
-    """track the case with the differentiated parameter set to th; returns (theta tensor, names, outputs)"""
+def evaluate(case, th, grad=False, insert=None):
+    """track the case with the differentiated parameter set to th; returns (theta tensor, names, outputs).
+    insert = (k, element): an extra cheetah element placed in front of position k of the lattice (used by the F64 signature)"""
     import cheetah
     theta = torch.tensor(float(th), dtype=D, requires_grad=grad)
     w = case["wrt"]
     elems = []
     for k, spec in enumerate(case["lattice"]):
+        if insert is not None and insert[0] == k:
+            elems.append(insert[1])
         if w[0] == "elem" and w[1] == k:
             idx = w[3]
             idx = tuple(idx) if isinstance(idx, list) else idx
             elems.append(build_elem(spec, w[2], idx, theta))
         else:
             elems.append(build_elem(spec))
+    if insert is not None and insert[0] == len(case["lattice"]):
+        elems.append(insert[1])
     beam = build_beam(case["beam"], w if w[0] == "beam" else None, theta)
     if case.get("segment"):
         out = cheetah.Segment(elems).track(beam)
@@ -190,9 +195,27 @@ def evaluate(case, th, grad=False):
     return theta, names, y
 
 
-def autograd_jac(case):
-    """d outputs / d theta by reverse-mode autograd, one output at a time.  Entries: float, nan/inf, or None."""
+def _graph_nodes(roots):
+    seen, stack, out = set(), [r.grad_fn for r in roots if r.grad_fn is not None], []
+    while stack:
+        n = stack.pop()
+        if n is None or n in seen:
+            continue
+        seen.add(n)
+        out.append(n)
+        stack.extend(m for (m, _) in n.next_functions)
+    return out
+
+
+def autograd_jac(case, cut_abs_below=None):
+    """d outputs / d theta by reverse-mode autograd, one output at a time.  Entries: float, nan/inf, or None.
+    cut_abs_below = c: the gradient through every |.| node of the graph whose argument is <= c in magnitude is set to 0 (this is what
+    the subgradient 0 of torch.absolute does AT an argument of exactly 0; used to reproduce the wrong value of F63 at a neighbour)"""
     theta, names, y = evaluate(case, theta0(case), grad=True)
+    if cut_abs_below is not None:
+        for n in _graph_nodes(y):
+            if n.name() == "AbsBackward0" and float(n._saved_self.abs().max()) <= cut_abs_below:
+                n.register_hook(lambda gi, go: tuple(torch.zeros_like(g) if g is not None else None for g in gi))
     res = []
     for n, yi in zip(names, y):
         if not yi.requires_grad:
@@ -241,6 +264,7 @@ def group_ref(names, y):
 
 
 RTOL = 1e-5
+SIGMA_FLOOR = 1e-9      # sigma_* outputs not above this are treated as the non-differentiable sqrt(0) (coordinates are ~1e-3)
 
 
 def _try(f):
@@ -268,6 +292,10 @@ def compare(case):
     if exc is not None:
         return {"status": "mismatch", "bad": [{"output": "*", "autograd": exc, "fd": None, "tol": None, "kind": "exception"}]}
     names, y, ag = agr
+    # sigma_* = sqrt(variance) at a variance of (almost) zero (degenerate beams: a coordinate shared by all particles, a zero row
+    # of cov): not differentiable / NaN under finite differences -- unspecified, dropped; every other output is still compared
+    keep = [not (n.startswith("sigma_") and not (abs(v) > SIGMA_FLOOR)) for n, v in zip(names, y)]
+    names, y, ag, fd, err = ([v for v, k in zip(lst, keep) if k] for lst in (names, y, ag, fd, err))
     if any(not math.isfinite(v) for v in y) or any(not math.isfinite(v) for v in fd):
         # the forward pass itself (or its neighbours) is not finite: C09's business, unspecified here
         return {"status": "nonfinite_reference", "bad": [], "names": names}
@@ -284,7 +312,7 @@ def compare(case):
         elif abs(a - f) > tol:
             bad.append({"output": n, "autograd": a, "fd": f, "tol": tol, "kind": "value"})
     return {"status": "mismatch" if bad else "ok", "bad": bad, "names": names, "n_outputs": len(names),
-            "n_dependent": sum(1 for f in fd if f != 0.0)}
+            "n_dependent": sum(1 for f in fd if f != 0.0), "autograd": ag, "fd": fd, "y": y}
 
 
 # =====================================================================================================================
@@ -309,18 +337,38 @@ def known_ids():
 
 
 def classify(case, res):
-    """id of the finding LISTED AS KNOWN whose signature the failing case matches, else None (fixed entries suppress nothing)"""
+    """id of the finding LISTED AS KNOWN that explains the failing case, else None (fixed entries suppress nothing).
+    A finding explains a failure only if (1) WHERE: class / parameter / predicate on the point match (`signature`), (2) WHAT: the
+    observation is the finding's characterised wrong value (exact 0, None, NaN, the F64 band, the F63 cut-graph value, an F65
+    kink), and (3) ATTRIBUTION: the same case with the finding's exact-zero point moved off zero passes (`confirm`).  The reason
+    for a refusal is stored in res["not_known_because"] and ends up in the replay file."""
     fid = signature(case, res)
-    return fid if fid in known_ids() else None
+    if fid not in known_ids():
+        return None
+    ok, why = _try(lambda: confirm(case, res, fid))
+    ok, why = (ok if ok is not None else (False, "exception while confirming: " + str(why)))
+    if not ok:
+        res["not_known_because"] = f"point matches {fid} but the observation does not: {why}"
+        return None
+    return fid
+
+
+def _bad_all(res, pred):
+    return all(pred(b) for b in res["bad"])
 
 
 def signature(case, res):
-    """id of the finding whose signature (class, parameter, predicate on the point, observable) the failing case matches, else None"""
+    """WHERE + kind of observation: id of the finding whose (class, parameter, predicate on the point, kind of wrong value) the failing
+    case matches, else None.  Pure (no re-evaluation); `confirm` bounds the VALUE and attributes the failure."""
     bad = res["bad"]
     kinds = {b["kind"] for b in bad}
     w = case["wrt"]
     lat = case["lattice"]
     cav_off = [k for k, e in enumerate(lat) if e["cls"] == "Cavity" and float(e["kw"].get("voltage", 0.0)) == 0.0]
+    first = 0 if w[0] == "beam" else w[1] + 1
+    sck = [k for k, e in enumerate(lat) if e["cls"] == "SpaceChargeKick" and k >= first]
+    if sck and kinds == {"value"} and _bad_all(res, lambda b: math.isfinite(b["autograd"])) and on_node_particle(case, sck[0]):
+        return "F65"
     if w[0] == "beam":
         if w[1] == "energy" and cav_off and kinds == {"nan"}:
             return "F7"
@@ -330,7 +378,7 @@ def signature(case, res):
     if cls in ("Quadrupole", "Dipole", "RBend") and p == "k1" and float(kw.get("k1", 0.0)) == 0.0 and kinds == {"value"}:
         if _method(e) == "cheetah" and all(b["autograd"] == 0.0 for b in bad):
             return "F6"
-        if _method(e) == "bmadx" and cls == "Quadrupole":
+        if _method(e) == "bmadx" and cls == "Quadrupole" and _bad_all(res, lambda b: math.isfinite(b["autograd"])):
             return "F63"     # torch.absolute(k1) has subgradient 0 at 0: the cos/sin coefficients get no gradient, a21 = k1*sx does
     if cls == "Solenoid" and float(kw.get("k", 0.0)) == 0.0 and p in ("k", "length") and kinds == {"nan"}:
         return "F7"
@@ -351,11 +399,180 @@ def signature(case, res):
         return "F62"
     if cls in ("Dipole", "RBend") and p == "angle" and _method(e) == "cheetah" and float(kw.get("angle", 0.0)) == 0.0 \
             and float(kw.get("k1", 0.0)) == 0.0 and kinds == {"value"}:
-        # (1 - cos(1e-6 L)) / 1e-12 carries a relative rounding error of ~2e-16 / (1e-12 L^2 / 2): 4e-4 at L = 1, 4e-2 at L = 0.1,
-        # amplified further by whatever follows in a segment (e.g. 1/sigma for sigma_* outputs): no bound on the magnitude is claimed
+        # (1 - cos(1e-6 L)) / 1e-12: the magnitude is bounded in `f64_band` (Optics/DerivF64.v)
         if all(b["autograd"] is not None and math.isfinite(b["autograd"]) for b in bad):
             return "F64"
     return None
+
+
+# ---- WHAT is observed (value) and ATTRIBUTION (the failure belongs to the finding's exact-zero point) ----------------
+NUDGE = {"k1": 1.3e-3, "misalignment": 3.3e-6, "tilt": 3.3e-4, "voltage": 3.3e3, "k": 3.3e-4, "coordinate": 1.7e-7}
+F64_ETA = 2.0 ** -51        # |error of the stored cos(1e-6 L)|: four units in the last place below 1 (DerivF64.disp_float_bound)
+M_E = 510998.95069
+
+
+def nudged(case, fid):
+    """the same case with every exact-zero point named by finding `fid` moved off zero by a small amount"""
+    import copy
+    c = copy.deepcopy({k: case[k] for k in ("lattice", "beam", "wrt", "segment")})
+    w = c["wrt"]
+    if fid == "F7":
+        for e in c["lattice"]:
+            if e["cls"] == "Cavity" and float(e["kw"].get("voltage", 0.0)) == 0.0:
+                e["kw"]["voltage"] = NUDGE["voltage"]
+            if e["cls"] == "Solenoid" and float(e["kw"].get("k", 0.0)) == 0.0:
+                e["kw"]["k"] = NUDGE["k"]
+    elif fid in ("F6", "F63"):
+        c["lattice"][w[1]]["kw"]["k1"] = NUDGE["k1"]
+    elif fid == "F60":
+        m = list(c["lattice"][w[1]]["kw"].get("misalignment") or [0.0, 0.0])
+        m[w[3]] = NUDGE["misalignment"]
+        c["lattice"][w[1]]["kw"]["misalignment"] = m
+    elif fid == "F61":
+        c["lattice"][w[1]]["kw"]["tilt"] = NUDGE["tilt"]
+    elif fid == "F65":
+        for q, r_ in enumerate(c["beam"]["particles"]):
+            for i in range(5):
+                if r_[i] == 0.0:
+                    r_[i] = NUDGE["coordinate"] * (1 + q + 0.37 * i)
+        for e in c["lattice"]:          # a zero kick leaves a particle on its node: move that too
+            if e["cls"] in ("HorizontalCorrector", "VerticalCorrector") and float(e["kw"].get("angle", 0.0)) == 0.0:
+                e["kw"]["angle"] = 1.3e-5
+    return c
+
+
+def beam_at(case, k):
+    """the beam arriving at element k (tracked element by element, no gradient)"""
+    with torch.no_grad():
+        b = build_beam(case["beam"])
+        for spec in case["lattice"][:k]:
+            b = build_elem(spec).track(b)
+    return b
+
+
+def on_node_particle(case, k):
+    """does the ParticleBeam arriving at the SpaceChargeKick at position k contain a particle with x, y or tau exactly 0 (the grid
+    is centred on 0 and has an even number of points: such a particle sits exactly on a grid node)"""
+    if case["beam"]["type"] != "particle":
+        return False
+    b, exc = _try(lambda: beam_at(case, k))
+    if exc is not None:
+        return False
+    return bool((b.particles[..., [0, 2, 4]] == 0.0).any())
+
+
+def f64_band(case, res):
+    """F64 bounds WHAT is observed: with N = E16 + E52 the autograd of the dipole's map is  dR/dangle|true + delta * rot(-tilt) N rot(tilt)
+    with ONE number |delta| <= (F64_ETA / 1e-12 + 1e-12 L^4/24) / (L beta)  (Optics/DerivF64.v: f64_observation_band).  Hence for
+    every outgoing quantity y:  |autograd(y) - fd(y)| <= delta_max * |dy/d eps| where eps is the strength of a unit dispersion map
+    I + eps rot(-tilt) N rot(tilt) inserted right behind the magnet (measured on the implementation by central differences)."""
+    import cheetah
+    k = case["wrt"][1]
+    kw = case["lattice"][k]["kw"]
+    L, t = float(kw["length"]), float(kw.get("tilt", 0.0))
+    if not L > 0.0:
+        return False, "length is not positive"
+    E_k = float(torch.as_tensor(beam_at(case, k).energy).reshape(-1)[0])
+    beta = math.sqrt(1.0 - (M_E / E_k) ** 2)
+    c_, s_ = math.cos(t), math.sin(t)
+
+    def rot(cs, sn):
+        m = torch.eye(7, dtype=D)
+        m[0, 0] = m[1, 1] = m[2, 2] = m[3, 3] = cs
+        m[0, 2] = m[1, 3] = sn
+        m[2, 0] = m[3, 1] = -sn
+        return m
+    N = torch.zeros(7, 7, dtype=D)
+    N[0, 5] = N[4, 1] = 1.0
+    P = rot(c_, -s_) @ N @ rot(c_, s_)
+
+    def y_of(eps):
+        ctm = cheetah.CustomTransferMap(predefined_transfer_map=torch.eye(7, dtype=D) + eps * P, length=_t(0.0), dtype=D)
+        with torch.no_grad():
+            _, names, y = evaluate(case, theta0(case), insert=(k + 1, ctm))
+        return dict(zip(names, (float(v) for v in y)))
+    eps = 1e-2
+    yp, ym = y_of(eps), y_of(-eps)
+    dmax = (F64_ETA / 1e-12 + 1e-12 * L ** 4 / 24) / (L * beta)
+    for b in res["bad"]:
+        sens = abs(yp[b["output"]] - ym[b["output"]]) / (2 * eps)
+        allowed = dmax * sens * 1.01 + b["tol"]
+        if not abs(b["autograd"] - b["fd"]) <= allowed:
+            return False, (f"{b['output']}: |autograd - fd| = {abs(b['autograd'] - b['fd']):.3e} exceeds the F64 band {allowed:.3e} "
+                           f"(= {dmax:.3e} [bound on the error of d R16/d angle, DerivF64.f64_observation_band] x {sens:.3e} "
+                           f"[sensitivity of the output to a unit dispersion map] + tolerance)")
+    return True, None
+
+
+def f63_value(case, res):
+    """F63 bounds WHAT is observed: the gradient at k1 = 0 is the gradient of the program with the |k1| path cut (subgradient 0 of
+    torch.absolute at 0).  It is reproduced at the neighbours k1 = +-1e-9 by cutting every |.| edge of the graph whose argument is
+    below 1e-7, and must agree with the observation on ALL outputs."""
+    import copy
+    names, ag0 = res["names"], res["autograd"]
+    ref = group_ref(names, res["y"])
+    for kk in (1e-9, -1e-9):
+        c2 = copy.deepcopy({k: case[k] for k in ("lattice", "beam", "wrt", "segment")})
+        c2["lattice"][c2["wrt"][1]]["kw"]["k1"] = kk
+        n2, _, ag2 = autograd_jac(c2, cut_abs_below=1e-7)
+        cut = dict(zip(n2, ag2))
+        for n, a, r in zip(names, ag0, ref):
+            a2 = cut.get(n)
+            if a is None or a2 is None or not math.isfinite(a) or not math.isfinite(a2):
+                if not (a is None and a2 is None):
+                    return False, f"{n}: autograd {a!r} at k1 = 0, cut-graph value {a2!r} at k1 = {kk}"
+                continue
+            if abs(a - a2) > 1e-6 * max(abs(a), abs(a2)) + 1e-9 * r:
+                return False, f"{n}: autograd {a!r} at k1 = 0 is not the value {a2!r} of the program with the |k1| path cut (k1 = {kk})"
+    return True, None
+
+
+def f65_kink(case, res):
+    """F65 bounds WHAT is observed: the outgoing quantity has a kink at the point (one-sided finite differences disagree) and the
+    autograd value is finite"""
+    t0 = theta0(case)
+    sc, hrel = param_scale(case)
+    h = 1e-2 * hrel * max(abs(t0), sc)
+    idx = {n: i for i, n in enumerate(evaluate(case, t0)[1])}
+
+    def f(th):
+        with torch.no_grad():
+            return [float(v) for v in evaluate(case, th)[2]]
+    f0, fp, fm = f(t0), f(t0 + h), f(t0 - h)
+    for b in res["bad"]:
+        i = idx[b["output"]]
+        right, left = (fp[i] - f0[i]) / h, (f0[i] - fm[i]) / h
+        if not abs(right - left) > 4 * b["tol"]:
+            return False, f"{b['output']}: no kink (one-sided differences {left!r}, {right!r}) but autograd {b['autograd']!r} != fd {b['fd']!r}"
+    return True, None
+
+
+def confirm(case, res, fid):
+    """(True, None) if the observation is the characterised wrong value of `fid` and the failure is attributable to it"""
+    if fid == "F62":
+        return True, None            # fixed: never suppresses (classify filters on the listed status)
+    if fid == "F64":
+        return f64_band(case, res)
+    if fid == "F63":
+        ok, why = f63_value(case, res)
+        if not ok:
+            return ok, why
+    if fid == "F65":
+        ok, why = f65_kink(case, res)
+        if not ok:
+            return ok, why
+    # F6: exactly 0, F60/F61: None, F7: NaN -- already required by `signature`.  Attribution: off the exact-zero point the case passes
+    c2 = nudged(case, fid)
+    r2 = compare(c2)
+    if r2["status"] == "ok":
+        return True, None
+    if r2["status"] == "mismatch":
+        other = signature(c2, r2)
+        if other is not None and other != fid and other in known_ids():
+            return True, None        # what remains is another listed finding (judged on its own when it is generated)
+        return False, ("the failure persists with the exact-zero point moved off zero (" + json.dumps(c2["lattice"])[:300] + "): "
+                       + json.dumps(r2["bad"][:2], default=str))
+    return False, "the nudged case is " + r2["status"]
 
 
 # =====================================================================================================================
@@ -538,6 +755,108 @@ def gen_beam_param_cases(rng, n):
     return cases
 
 
+
+# ---------------------------------------------------------------------------------------------------------------------
+# degenerate beams behind a live upstream parameter: the gradient has to flow THROUGH the coordinate transformation of
+# every element class x tracking method, evaluated at particles that sit exactly on an axis
+# ---------------------------------------------------------------------------------------------------------------------
+PARTICLE_DEGENERACIES = ["reference_particle", "on_axis_momenta", "zero_divergence", "zero_column", "duplicates", "on_axis_positions"]
+PARAMETER_DEGENERACIES = ["zero_mean", "zero_cov_row", "diagonal_cov", "zero_cov"]
+
+
+def degenerate_beam(rng, btype, kind, energy=None):
+    """(beam spec, index of the degenerate particle or coordinate).  All other entries stay generic so that outgoing quantities
+    really depend on the upstream parameter."""
+    b = gen_beam(rng, btype, energy)
+    if btype == "particle":
+        ps = b["particles"]
+        while len(ps) < 3:
+            ps.append([rr(rng, -1e-3, 1e-3, 6) for _ in range(6)] + [1.0])
+        b["charges"] = [1e-12] * len(ps)
+        b["survival"] = [1.0] * len(ps)
+        q = rng.randrange(len(ps))
+        if kind == "reference_particle":          # the all-zero reference particle carried along with the bunch
+            ps[q] = [0.0] * 6 + [1.0]
+        elif kind == "on_axis_momenta":           # px = py = 0 exactly, x, y != 0
+            ps[q][1] = ps[q][3] = 0.0
+        elif kind == "on_axis_positions":         # x = y = 0 exactly, momenta != 0
+            ps[q][0] = ps[q][2] = 0.0
+        elif kind == "zero_divergence":           # laminar beam: every particle has px = py = 0
+            for r_ in ps:
+                r_[1] = r_[3] = 0.0
+        elif kind == "zero_column":               # one coordinate exactly 0 for every particle
+            q = rng.randrange(6)
+            for r_ in ps:
+                r_[q] = 0.0
+            return b, ("column", q)
+        elif kind == "duplicates":                # two identical particles (one of them on the axis in half of the cases)
+            if rng.random() < 0.5:
+                ps[q] = [0.0] * 6 + [1.0]
+            ps[(q + 1) % len(ps)] = list(ps[q])
+        return b, ("particle", q)
+    i = rng.randrange(6)
+    if kind == "zero_mean":
+        b["mu"] = [0.0] * 6 + [1.0]
+    elif kind == "zero_cov_row":                  # coordinate i has no spread and no correlation
+        for j in range(7):
+            b["cov"][i][j] = b["cov"][j][i] = 0.0
+    elif kind == "diagonal_cov":
+        b["cov"] = [[b["cov"][a][c] if a == c else 0.0 for c in range(7)] for a in range(7)]
+    elif kind == "zero_cov":                      # a pencil beam
+        b["cov"] = [[0.0] * 7 for _ in range(7)]
+        if rng.random() < 0.5:
+            b["mu"] = [0.0] * 6 + [1.0]
+    return b, ("coordinate", i)
+
+
+def upstream_element(rng):
+    """an element with a live parameter to be placed in front (linear tracking: it keeps an on-axis particle on the axis)"""
+    c = rng.choice(["Quadrupole", "Quadrupole", "Drift", "HorizontalCorrector"])
+    if c == "Quadrupole":
+        kw = dict(length=rng.choice([0.1, 0.25, 0.5]), k1=rng.choice([2.0, -3.0, 0.5, rr(rng, -5, 5)]), misalignment=[0.0, 0.0], tilt=0.0,
+                  num_steps=1, tracking_method="cheetah")
+        return {"cls": c, "kw": kw}, rng.choice([("k1", None), ("k1", None), ("length", None)])
+    if c == "Drift":
+        return {"cls": c, "kw": dict(length=rng.choice([0.25, 0.5, 1.0]), tracking_method="cheetah")}, ("length", None)
+    return {"cls": c, "kw": dict(length=rng.choice([0.0, 0.25]), angle=rng.choice([0.0, 1e-3]))}, ("angle", None)
+
+
+def gen_degenerate_cases(rng, reps):
+    """every element class x tracking method x beam type behind an upstream element with a live parameter, on beams that contain
+    exactly-on-axis particles / zero moments; differentiated w.r.t. the upstream parameter and w.r.t. the incoming beam"""
+    cases = []
+    for cls in PARAMS:
+        for method in methods_of(cls):
+            for btype in ("particle", "parameter"):
+                if btype == "parameter" and (method == "bmadx" or cls == "SpaceChargeKick"):
+                    continue
+                kinds = PARTICLE_DEGENERACIES if btype == "particle" else PARAMETER_DEGENERACIES
+                # the reference particle / zero mean in every run, plus `reps` others
+                chosen = [kinds[0]] + [rng.choice(kinds[1:]) for _ in range(reps)]
+                if cls == "SpaceChargeKick":
+                    chosen = chosen[:1 + (reps > 2)]
+                for kind in chosen:
+                    kw = gen_kw(rng, cls, method, rng.random() < 0.3)
+                    up, (p, idx) = upstream_element(rng)
+                    beam, (what, q) = degenerate_beam(rng, btype, kind)
+                    lat = [up, {"cls": cls, "kw": kw}]
+                    wrts = [["elem", 0, p, idx]]
+                    if btype == "particle":
+                        n = len(beam["particles"])
+                        pq = q if what == "particle" else rng.randrange(n)
+                        cols = [1, 3, 0] if what == "particle" else [q, rng.randrange(6)]
+                        wrts.append(["beam", "particles", pq, rng.choice(cols)])
+                        wrts.append(rng.choice([["beam", "particles", pq, rng.randrange(6)], ["beam", "energy"]]))
+                    else:
+                        wrts.append(["beam", "mu", q])
+                        wrts.append(rng.choice([["beam", "cov", q, q], ["beam", "cov", q, rng.randrange(6)], ["beam", "energy"]]))
+                    seg = rng.random() < 0.5
+                    for w in wrts:
+                        cases.append({"lattice": lat, "beam": beam, "wrt": w, "segment": seg, "zero_point": False,
+                                      "degenerate": kind, "through": cls + "/" + method})
+    return cases
+
+
 def shrink(case, same):
     """drop elements of the lattice (other than the differentiated one) while the failure persists"""
     import copy
@@ -578,6 +897,9 @@ def run_oracle(run, cases):
         run.count("oracle_param_" + tag)
         if case.get("zero_point"):
             run.count("oracle_zero_points")
+        if case.get("degenerate"):
+            run.count("degenerate_beam_" + case["degenerate"])
+            run.count("degenerate_through_" + case["through"])
         if case.get("forced") == "fringe_integral_exit":
             run.count("fringe_integral_exit_forced_cases")
             if res.get("n_dependent", 0) > 0:
@@ -1008,6 +1330,8 @@ def corr_search_cases(b):
 def replay_dict(case, res, extra=None):
     d = {"kind": "autograd_vs_finite_differences", "case": {k: case[k] for k in ("lattice", "beam", "wrt", "segment")},
          "mismatches": res["bad"][:6], "n_mismatches": len(res["bad"]),
+         **({"not_a_known_finding_because": res["not_known_because"]} if res.get("not_known_because") else {}),
+         **({k: case[k] for k in ("degenerate", "through") if k in case}),
          "relation": "torch.autograd.grad(outgoing quantity, parameter) == central finite difference (Richardson), finite and not None"}
     if extra:
         d.update(extra)
@@ -1063,7 +1387,7 @@ def main(tier, replay=None):
 
     run.cov["findings_listed_known"] = sorted(known_ids())
     cases = gen_single_cases(run.rng, 12 if thorough else 1) + gen_segment_cases(run.rng, 800 if thorough else 40) \
-        + gen_beam_param_cases(run.rng, 400 if thorough else 30)
+        + gen_beam_param_cases(run.rng, 400 if thorough else 30) + gen_degenerate_cases(run.rng, 12 if thorough else 2)
     for _ in range(4 if thorough else 1):
         cases += gen_fringe_exit_cases(run.rng)
     viol, known = run_oracle(run, cases)
